@@ -330,6 +330,12 @@ func (p *sampledLFU) updateIfHas(key uint64, cost int64) bool {
 	if prev, found := p.keyCosts[key]; found {
 		// Update the cost of an existing key, but don't worry about evicting.
 		// Evictions will be handled the next time a new item is added.
+		// An update is never turned away, so the total can go past MaxCost here;
+		// it must not go past what an int64 holds, or it wraps around and later
+		// additions find room that is not there. Account for what still fits.
+		if rest := p.used - prev; rest >= 0 && cost > math.MaxInt64-rest {
+			cost = math.MaxInt64 - rest
+		}
 		p.metrics.add(keyUpdate, key, 1)
 		if prev > cost {
 			diff := prev - cost
